@@ -20,7 +20,8 @@ func init() {
 			"(R4) AddTransaction registers the tx under inputs[outpoint] exactly once per outpoint on every path, and removeTransaction updates or deletes the same keys; " +
 			"(R5) no bool result that callers branch on is the same constant on every return path; " +
 			"(R6) in processUnconfirmedTx the new tx is stored UnSafe (and not Safe) whenever AddTransaction reported conflicts, and for every conflict MarkUnsafe, FetchTxState, SaveTxState, HandleTxUpdate happen in that order for that conflict's txid; " +
-			"(R7) all MemPool maps are accessed under the mempool mutex.",
+			"(R7) all MemPool maps are accessed under the mempool mutex; " +
+			"(R8) an outpoint's spender list is deleted only behind `registered list has at most one spender` (or `shrunk list is empty`); R6 also requires that no successful return of processUnconfirmedTx skips the conflicts loop once the mempool accepted the tx.",
 		NotDecided:  "exactness of the outpoint index after every add/remove history as a value statement; that neither tx is later reported safe over time (see C07).",
 		Assumptions: []string{"every bitcoin.Hash32 parameter of a MemPool method is a txid (frozen from the API)", "reading an appended slice counts as a use"},
 		Tech:        "lost-update (dead append) dataflow, effect inference, unit-like kind inference for hashes, per-iteration event counting, constant-result/branch contradiction, guard edge cut-sets, lockset",
@@ -406,8 +407,8 @@ func runC05(c *Check) {
 	// ---- R4 symmetric registration
 	outPoints := c.P.Field("state", "memPoolTx", "outPoints")
 	for _, spec := range []struct {
-		key  string
-		add  bool
+		key string
+		add bool
 	}{{"state.(*MemPool).AddTransaction", true}, {"state.(*MemPool).removeTransaction", false}} {
 		fn := c.Fn("R4", spec.key)
 		if fn == nil || outPoints == nil {
@@ -681,6 +682,10 @@ func runC05(c *Check) {
 			}
 		}
 	}
+
+	// ---- R8 / R6c (added after seeded round 2)
+	c.ruleInputsDeleteGuard("R8")
+	c.ruleConflictsAlwaysHandled("R6")
 
 	// ---- R7 lockset
 	c.lockset("R7", "state", "MemPool", "mutex", c.structFields("state", "MemPool", "mutex"), []string{"state"}, nil, 20)
